@@ -176,7 +176,7 @@ pub fn run_families(rep: &mut Report, families: Vec<SeqSpec>, budget: Duration, 
         let end = t0 + budget;
         let now = Instant::now();
         let remaining = if end > now { end - now } else { Duration::from_secs(0) };
-        let share = (remaining * 3 / ((n_fams - fi) as u32)).min(remaining);
+        let share = (remaining * 4 / ((n_fams - fi) as u32)).min(remaining);
         let deadline = now + share;
         let desc = fam.describe();
         let fam_arc = Arc::new(fam.clone());
@@ -846,7 +846,7 @@ pub fn c03(tier: &str) -> ! {
     if t {
         run_sched(&mut rep, "snapshot-stability/p3d4", &c03_stability_programs(), (3, 4), 8, false, 2, Duration::from_secs(600), own);
     } else {
-        run_sched(&mut rep, "snapshot-stability/p2d3", &c03_stability_programs(), (2, 3), 2, false, 1, Duration::from_secs(10), own);
+        run_sched(&mut rep, "snapshot-stability/p2d3", &c03_stability_programs(), (2, 3), 2, false, 1, Duration::from_secs(16), own);
     }
     finish_common(&mut rep);
     sched_assumptions(&mut rep);
